@@ -172,4 +172,19 @@ theorem PlainObj.shape_at {pp : PP} (P : PlainObj pp) (sec : Section) (hs : sec.
   rw [← hne, el]
   exact hr
 
+/-- where the owner name of the record under a cursor ends, from the record's shape -/
+theorem PlainObj.ne_of_shape {pp : PP} (P : PlainObj pp) (sec : Section) (hs : sec.isRec = true) {ps1 ps2 : List Bytes} {rc : Bytes}
+    (hsplit : P.lst sec = ps1 ++ rc :: ps2) (owner : List (List UInt8)) (rest : Bytes) (hrc : rc = (encLabels owner ++ [0]) ++ rest)
+    (hgo : GoodLabels owner) {ne nx : Nat} {ob oa : Bool}
+    (hr : RRAtPos pp.packet sec ⟨P.start sec + ps1.flatten.length, ne, nx⟩ ob oa) :
+    ne = P.start sec + ps1.flatten.length + labSum owner + 1 := by
+  obtain ⟨pre0, post0, hb, hl⟩ := P.split_bytes sec hs
+  rw [hsplit] at hb
+  have e2 : pp.packet = (pre0 ++ ps1.flatten) ++ (encLabels owner ++ [0]) ++ (rest ++ (ps2.flatten ++ post0)) := by
+    rw [hb, hrc]; simp
+  have hv := validName_at e2 hgo.1 hgo.2.1 hgo.2.2
+  have el : (pre0 ++ ps1.flatten).length = P.start sec + ps1.flatten.length := by rw [List.length_append, hl]
+  rw [el] at hv
+  exact nameEnds_functional hr.1 ⟨owner, hv⟩
+
 end Dns
